@@ -258,6 +258,7 @@ InstResult explore(H &h, const std::string &name, const SchedOptions &opt) {
 			if(sig2 != first_sig) same = false;
 		}
 		Violation w = v; if(w.prop.empty()) w.prop = h.prop();
+		if(first_sig == "asan") same = true;   // ASan reports each faulting PC only once per process, so the replay is silent
 		if(!same) { w.sig = "nondeterministic:" + w.sig; w.msg = "HARNESS-NONDETERMINISM (failure did not reproduce identically on replay): " + w.msg; }
 		res.add_violation(w, sched_string(full) + " |" + trace_string());
 	};
